@@ -12,7 +12,7 @@ SLAB_NODES is 128 in the tree and is not shrunk under cfg(loom): slab recycling 
 the fixed corpus cases corpus/chainb/{recycle,pool_overflow}.case (batches of 129..1300 values).
 """
 import os, subprocess, sys
-from vlib import VERIF
+from vlib import VERIF, CHAN_RUSTFLAGS
 sys.path.insert(0, os.path.dirname(__file__))
 import chanlib   # monitor lines are judged per property (prop_of) and matched against the known-finding families
 
@@ -50,7 +50,7 @@ def tie(ctx, cases=None):
     under the scheduler shim must be the step the model's program counter dictates (same object role, values
     read and written, CAS outcome, ordering at least as strong); every call/return must match."""
     drv = ctx.lean_exe("fvdrv_chainb")
-    h = ctx.cargo_build("chan", "chanh", rustflags="--cfg loom")
+    h = ctx.cargo_build("chan", "chanh", rustflags=CHAN_RUSTFLAGS)
     ctx.assumptions += [a for a in ASSUMPTIONS if a not in ctx.assumptions]
     if ctx.replay:
         return [chanlib.tie(ctx, "chainb-replay", [h, "run", ctx.replay, "--atomics"], [drv])]
